@@ -97,6 +97,7 @@ type c09Step struct {
 	// race: source transitions / snapshot / mirror while the reply was parked
 	Trans2 []c09Snap  `json:"trans2,omitempty"`
 	Mir2   *c09Mirror `json:"mir2,omitempty"`
+	MirRet *c09Mirror `json:"mir_ret,omitempty"` // race: mirror when the call returned (Mir: after the client settled)
 	Parked bool       `json:"parked,omitempty"`
 	WaitMs int        `json:"wait_ms,omitempty"` // drop: time until the new handshake (diagnostic, not compared)
 }
@@ -322,6 +323,7 @@ type c09Pair struct {
 	// decide how long a push window waits for push-done (never recorded)
 	seenTrans bool
 	latestNil bool
+	syncSkew  int64 // Sync() started on the client minus served by the server, when quiet
 	lastSum   uint64
 	lastQ     uint64
 
@@ -590,11 +592,50 @@ func (p *c09Pair) helloed() {
 }
 
 func (p *c09Pair) pushExpected() bool {
-	if p.latestNil {
+	if p.latestNil || !p.seenTrans { // the placeholder is not pushed (ca3c269)
 		return false
 	}
 	s, q := p.curKey()
 	return s != p.lastSum || q != p.lastQ
+}
+
+func c09Count(m *am.Machine, state string) int64 { return int64((m.Tick(state) + 1) / 2) }
+
+// settleClient waits (bounded) until no Sync() of the client is outstanding
+// and the mirror stopped moving: a rejected push makes the client request a
+// full Sync from a goroutine (86fb806 / 4b9897e), which lands some time after
+// the push was processed. Sync() adds MetricSync on the client when it starts,
+// RemoteSync adds MetricSync on the server when it is served.
+func (p *c09Pair) settleClient() {
+	time.Sleep(2 * time.Millisecond)
+	deadline := time.Now().Add(250 * time.Millisecond)
+	prev := ""
+	stable, odd := 0, 0
+	for time.Now().Before(deadline) {
+		diff := c09Count(p.cli.Mach, ssrpc.ClientStates.MetricSync) - c09Count(p.srv.Mach, ssrpc.ServerStates.MetricSync)
+		mb, _ := json.Marshal(p.mirror())
+		m := fmt.Sprint(diff) + string(mb)
+		if m == prev {
+			if diff == p.syncSkew {
+				stable++
+				if stable >= 3 {
+					return
+				}
+			} else {
+				// a Sync that cannot be served now (callLock held by a parked
+				// call, connection lost): accept after 40 quiet polls
+				odd++
+				if odd >= 40 {
+					p.syncSkew = diff
+					return
+				}
+			}
+		} else {
+			stable, odd = 0, 0
+		}
+		prev = m
+		time.Sleep(time.Millisecond)
+	}
 }
 
 // pushWindow lets the server push the latest data ("push-done" tells that
@@ -626,6 +667,7 @@ func (p *c09Pair) pushWindow() {
 			time.Sleep(c09Ticker / 4)
 		}
 		time.Sleep(c09Ticker)
+		p.settleClient()
 	}
 	p.closeWindow()
 	// a pushClient call that passed the gate before the window closed
@@ -699,6 +741,13 @@ func c09Exec(in *C09Input) (obs *c09Obs) {
 		case <-done:
 			st.ResCli = c09Res(res)
 			st.Mir = mir
+			if onPark != nil {
+				// a Sync requested while the call held callLock runs now
+				mr := mir
+				st.MirRet = &mr
+				p.settleClient()
+				st.Mir = p.mirror()
+			}
 		case <-time.After(c09CallLimit):
 			st.Timeout = true
 			st.ResCli = 9
@@ -869,8 +918,12 @@ func c09Coq(in *C09Input, obs *c09Obs) string {
 			if st.Mir2 != nil {
 				m2 = *st.Mir2
 			}
-			step = fmt.Sprintf("(ORace %s %s %s %d %d)", coqBool(st.Parked), c09CoqSnaps(st.Trans2), c09CoqMir(m2),
-				st.ResCli, st.ResSrc)
+			mr := st.Mir
+			if st.MirRet != nil {
+				mr = *st.MirRet
+			}
+			step = fmt.Sprintf("(ORace %s %s %s %s %d %d)", coqBool(st.Parked), c09CoqSnaps(st.Trans2), c09CoqMir(m2),
+				c09CoqMir(mr), st.ResCli, st.ResSrc)
 		case "push":
 			step = "OPush"
 		case "sync":
@@ -1155,6 +1208,9 @@ func runC09(c *Ctx) error {
 			in.NoSchema = r.Chance(30)
 			in.SyncMut = r.Chance(10)
 			in.Shallow = r.Chance(10)
+			if r.Chance(30) {
+				c09GenPartial(r, in)
+			}
 			c09GenOps(r, in, r.Range(2, 6), 30, 25, 20, 5, 0, 20)
 			in.Ops = append(in.Ops, C09Op{Kind: "race", Mut: "add", States: []int{r.Intn(in.N)},
 				Mut2: "add", States2: []int{r.Intn(in.N)}})
